@@ -21,7 +21,8 @@ EXPLANATION = (
     'SLN = (cost-salvage)/life; (C20.6) NPV on witness flows incl. zero flows first, in the middle and last, and '
     'SLN, as the evaluator calls them: a zero flow occupies a period.'
     " (C20.7) a witness workbook: XNPV equals its closed form, is linear in the flows and a plain sum at rate 0, XIRR returns the root of the closed form (scipy's secant iteration modelled by its documented algorithm) - dates as serials around 60, fractional serials and dates built by DATE.")
-NOT_DECIDED = 'the defining equations as numeric identities, root properties, linearity'
+NOT_DECIDED = ("numeric accuracy of numpy / numpy_financial beyond the witness rows; what scipy's iteration returns when no root exists or the "
+               "iteration leaves the domain (the conversion of its RuntimeError to #NUM! is not witnessed)")
 TRUSTED = ['numpy_financial.pv/pmt/irr parameter conventions', 'scipy.optimize.newton signature', 'workbook scenarios: pandas storage of range arrays as row-major rows, numpy on Python numbers (IEEE results, 64-bit integer wrap), dateutil.parser.parse rejecting texts that are no dates, openpyxl address arithmetic, inspect.signature built from the FunctionDef', "scipy.optimize.newton without derivative = the library's secant iteration", 'pandas DataFrame from a dict of lists: column access, boolean-mask rows, stable sort_values']
 
 FUNCS = ('IRR', 'NPV', 'PMT', 'PV', 'SLN', 'XIRR', 'XNPV')
@@ -243,69 +244,36 @@ def rule_3(ctx):
 
 
 def rule_4(ctx):
-    for name in ('XIRR', 'XNPV'):
-        f = _reg(ctx, name)
-        fn = ctx.inl(f.node, keep=('_xnpv', '_xirr'))
-        guards = [n for n in walk_local(fn) if isinstance(n, ast.If) and isinstance(n.test, ast.Compare) and isinstance(n.test.ops[0], ast.NotEq)
-                  and all(isinstance(x, ast.Call) and isinstance(x.func, ast.Name) and x.func.id == 'len' for x in [n.test.left, n.test.comparators[0]])
-                  and any(isinstance(r, ast.Raise) and raise_class(ctx, r) == XLERR + 'NumExcelError' for r in n.body)]
-        ctx.expect(len(guards) == 1, fn, f'{name}: length mismatch gives #NUM!', f'{name} has no len(values) != len(dates) -> #NUM! guard')
-        if guards:
-            comp = [c for c in flow.calls_in(fn) if isinstance(c.func, ast.Name) and c.func.id in ('_xnpv', '_xirr')]
-            ok = bool(comp) and all(flow.pos(guards[0]) < flow.pos(c) for c in comp)
-            ctx.expect(ok, fn, f'{name}: guard precedes the computation', f'{name} computes before checking the lengths')
-            # the compared lists are the ones handed to the computation
-            cmp_names = names_in(guards[0].test) - {'len'}
-            deps = flow.Deps(fn)
-            used = set()
-            for c in comp:
-                for a in c.args:
-                    used |= deps.closure(names_in(a))
-            ctx.expect(cmp_names <= used, fn, f'{name}: the compared lists are the computed ones',
-                       f'{name} compares {sorted(cmp_names)} but computes with other lists')
-    fm = ctx.mod('xlfunctions.financial')
-    xi = fm.func('_xirr')
-    ok = False
-    for t in walk_local(xi):
-        if isinstance(t, ast.Try):
-            for h in t.handlers:
-                names = {dotted(x) for x in (h.type.elts if isinstance(h.type, ast.Tuple) else [h.type])} if h.type is not None else set()
-                if 'RuntimeError' in names and any(isinstance(r, ast.Raise) and raise_class(ctx, r) == XLERR + 'NumExcelError' for r in h.body):
-                    ok = True
-    ctx.expect(ok, xi, 'XIRR: non-convergence gives #NUM!', 'a solver failure (RuntimeError) is not converted into #NUM!')
-    xn = fm.func('_xnpv')
-    g = [n for n in walk_local(xn) if isinstance(n, ast.If) and func_params(xn)[0] in names_in(n.test)]
-    ctx.expect(bool(g), xn, '_xnpv guards rate <= -1', '_xnpv divides by (1+rate)^t without guarding rate <= -1')
-    ctx.floor(8, 'guards')
+    """Guards of the dated functions, decided on a witness workbook evaluated as written: flows and dates of different lengths
+    give #NUM! (in either direction, for XNPV and XIRR) and a rate of -1 or below ends in a value or an Excel error, never in a
+    Python-level exception. (What scipy's iteration does when no root exists is not decided - see NOT_DECIDED.)"""
+    from . import workbook as W
+    from . import values as V
+    f = _reg(ctx, 'XNPV')
+    cells = {'A1': -100, 'A2': 10, 'A3': 200, 'B1': 60, 'B2': 61, 'B3': 425,
+             'G1': '=XNPV(0.1,A1:A3,B1:B2)', 'G2': '=XNPV(0.1,A1:A2,B1:B3)', 'G3': '=XIRR(A1:A3,B1:B2)', 'G4': '=XIRR(A1:A2,B1:B3)',
+             'G5': '=XNPV(-1,A1:A3,B1:B3)', 'G6': '=XNPV(-1.5,A1:A3,B1:B3)', 'G7': '=XNPV(0.1,A1:A3,B1:B3)'}
+    models = dict(V.date_models())
+    models.update(V.scipy_models())
+    wb = W.Workbook(ctx, cells, models=models)
+    for a in ('G1', 'G2', 'G3', 'G4'):
+        got = wb.value('Sheet1!' + a)
+        name = cells[a][1:5]
+        ok = got in (('error', '#NUM!'), ('error-class', 'NumExcelError'))
+        ctx.expect(ok, _reg(ctx, name).node, f'{name}: length mismatch gives #NUM! ({cells[a]})',
+                   f'{cells[a]} with three flows / two dates (or two / three) evaluates to {got!r}, expected #NUM!')
+    for a in ('G5', 'G6'):
+        got = wb.value('Sheet1!' + a)
+        ok = not (isinstance(got, tuple) and got[:1] == ('raise',))
+        ctx.expect(ok, f.node, f'XNPV at a rate of -1 or below does not crash ({cells[a]})',
+                   f'{cells[a]} ends in {got!r}: a rate at which 1 + rate is zero or negative must give a value or an Excel error, not a Python exception')
+    got = wb.value('Sheet1!G7')
+    ctx.expect(isinstance(got, tuple) and got[0] == 'Number', f.node, 'XNPV: equal lengths are accepted', f'{cells["G7"]} evaluates to {got!r}')
+    ctx.floor(7, 'guards')
 
 
 def rule_5(ctx):
-    # NPV's closed form is decided on witness flows by C20.6; here the date-weighted form of _xnpv on witness flows
-    f = _reg(ctx, 'NPV')
-    fn = f.node
-    fm = ctx.mod('xlfunctions.financial')
-    xn = fm.func('_xnpv')
-    px = func_params(xn)
-    r = last_return(xn)
-    ok = False
-    if r is not None:
-        pows = [b for b in ast.walk(r.value) if isinstance(b, ast.BinOp) and isinstance(b.op, ast.Pow)]
-        if len(pows) == 1:
-            ex = pows[0].right
-            try:
-                denom = ctx.fold(ex.right, fm) if isinstance(ex, ast.BinOp) and isinstance(ex.op, ast.Div) else None
-            except Exception:
-                denom = None
-            ok = denom in (365, 365.0) and isinstance(ex.left, ast.BinOp) and isinstance(ex.left.op, ast.Sub) \
-                and ast.unparse(ex.left.right) == f'{px[2]}[0]' \
-                and any(isinstance(b, ast.BinOp) and isinstance(b.op, ast.Div) and b.right is pows[0] for b in ast.walk(r.value))
-            try:
-                from .common import Lin, linear
-                base = linear(pows[0].left, {px[0]: Lin.var('rate')})
-                ok = ok and base == Lin(1, {'rate': 1})
-            except Unmodelled:
-                ok = False
-    ctx.expect(ok, xn, 'XNPV: v_i / (1+rate)^((d_i - d_0)/365)', '_xnpv does not discount each flow by (1+rate)^((d_i-d_0)/365)')
+    """SLN on witness triples (the date-weighted closed form of XNPV is decided end to end by C20.7, NPV's by C20.6)."""
     f = _reg(ctx, 'SLN')
     p = func_params(f.node)
     wrong = []
@@ -316,7 +284,7 @@ def rule_5(ctx):
             wrong.append((cost, salvage, life, out.value, want))
     ctx.expect(not wrong, f.node, 'SLN = (cost - salvage) / life',
                f'SLN{wrong[0][:3]} gives {wrong[0][3]!r}, expected {wrong[0][4]!r}' if wrong else '')
-    ctx.floor(2, 'closed-form shapes')
+    ctx.floor(1, 'closed-form witnesses')
 
 
 def rule_6(ctx):
